@@ -120,12 +120,33 @@ def install(R):
           raises_only={"XYZError", "AnyError"},
           on_raise=[("fs_untouched", "fs_unchanged()")])
 
-    R.add(K + "Crop.all_nan_result", cls="Crop", result="V", assumed=True,
+    R.add(K + "Crop.all_nan_result", cls="Crop", result="V", props=["C09"],
+          requires=[("results_are_tuples", "forall(lambda b: implies(b >= 1 and fs_exists(ResultPath(self.location, b)), "
+                                           "fs_complete(ResultPath(self.location, b)) and is_seq(fs_content(ResultPath(self.location, b)))))"),
+                    ("cache", "self._all_nan_result is not NO_DEFAULT")],
           modifies=["self._all_nan_result"],
-          ensures=[("frame", "fs_unchanged()"), ("not_sentinel", "result is not NO_DEFAULT")],
-          raises={"XYZError": dict(ensures=["fs_unchanged()"]), "AnyError": dict(ensures=["fs_unchanged()"])},
-          notes="caller-side summary: placeholder from the first finished result (nan_like_result, C02); "
-                "XYZError when no result exists")
+          trace=[("placeholder_like_a_finished_result",
+                  "implies(old(self._all_nan_result) is None, FirstItemOfSomeResult(self.location, call_arg('nan_like_result', 'res')) and "
+                  "result == call_result('nan_like_result'))")],
+          ensures=[("frame", "fs_unchanged()"), ("not_sentinel", "result is not NO_DEFAULT"),
+                   ("cached", "implies(old(self._all_nan_result) is not None, result == old(self._all_nan_result))")],
+          raises={"XYZError": dict(when="self._all_nan_result is None and CountResults(self.location) == 0", ensures=["fs_unchanged()"]),
+                  "AnyError": dict(ensures=["fs_unchanged()"])},
+          on_raise=[("fs_untouched", "fs_unchanged()")],
+          notes="placeholder from a finished result (nan_like_result, C02); XYZError only when no result exists")
+
+    # the module-private sentinel object NO_DEFAULT is not something nan_like_result can return (object identity: assumed)
+    xs_ = z3.Const("x!", V)
+    fnl = z3.Function("ext:xyzpy/gen/combo_runner.py:nan_like_result/1", V, V)
+    R.axioms.append(("placeholder_is_not_the_private_sentinel", z3.ForAll([xs_], fnl(xs_) != z3.Const("xyzpy/gen/cropping.py:NO_DEFAULT", V), patterns=[fnl(xs_)])))
+
+    def first_item_of_some_result(eng, fr, loc, v):
+        """v is the first element of the content of a visible result file (id >= 1) of the crop"""
+        b = z3.Int(fresh_name("b"))
+        rp = S["ResultPath"](eng, fr, loc, mk_int(b)).t
+        g = (fr.old if fr.old is not None else fr.st).ghost
+        return mk_bool(z3.Exists([b], z3.And(b >= 1, z3.Select(g["FS_ex"].t, rp), eng.as_V(v) == T.sget(z3.Select(g["FS_ct"].t, rp), 0))))
+    S["FirstItemOfSomeResult"] = first_item_of_some_result
 
     R.add(K + "calc_clean_up_default_res", types={"crop": "obj:Crop"}, result="tuple:V,V", props=["C09", "C12"],
           modifies=["crop._all_nan_result"],
@@ -315,9 +336,14 @@ def install3(R):
     # ---------------------------------------------------------------- farmers (caller side; bodies under C05/C15)
     R.add(FARM + "Sampler.add_df", cls="Sampler", result="none", assumed=True,
           modifies=["self._full_df", "ghost:FS"],
-          ensures=[("only_data_file", "fs_same_except(self.data_name)")],
-          raises={"AnyError": dict(ensures=["fs_same_except(self.data_name)"])},
+          ensures=[("only_data_file", "fs_same_except(TableOf(self))")],
+          raises={"AnyError": dict(ensures=["fs_same_except(TableOf(self))"])},
           notes="summary: touches only the sampler's own data file (C15 verifies the body)")
+
+    def table_of(eng, fr, smp):
+        """the file a Sampler keeps its table in (its data_name), as a function of the sampler object"""
+        return mk_V(z3.Function("sampler_table", V, V)(eng.as_V(smp)))
+    S["TableOf"] = table_of
 
     def harvest_path(eng, fr, h):
         aae = z3.Function("auto_add_extension", V, V, V)
@@ -338,6 +364,7 @@ def install3(R):
     rc.raises = {"AnyError": dict(ensures=["crop_files_unchanged(self.location)"])}
 
     R.add(K + "Crop.reap_combos_to_ds", cls="Crop", result="V", props=["C12", "C09", "C06"],
+          prop_map={"runner_args": ["C04", "C06", "C09"], "labelling_forwarded": ["C06", "C04"]},
           hooks={"skip_call_pre": ("combo_runner_to_ds",)},
           notes="the labelling preconditions of combo_runner_to_ds (normal-form description) are the caller's: reap_runner passes a Runner's "
                 "stored description with parse=False; with parse=True the inputs go through parse_*",
@@ -416,13 +443,15 @@ def install3(R):
                   "AnyError": dict(ensures=["crop_files_unchanged(self.location)"])},
           on_raise=[("no_delete", "not called('Crop.delete_all')"), ("crop_untouched", "crop_files_unchanged(self.location)")])
 
-    R.add(K + "Crop.reap_samples", cls="Crop", result="V", props=["C06"], types={"sampler": "obj:Sampler"},
-          requires=[("sown", "fs_exists(InfoPath(self.location))")],
+    R.add(K + "Crop.reap_samples", cls="Crop", result="V", props=["C06", "C09"], types={"sampler": "obj:Sampler"},
+          requires=[("sown", "fs_exists(InfoPath(self.location))"),
+                    ("table_file_outside_crop", "implies(sampler is not None, not under(self.location, TableOf(sampler)))")],
           modifies=["*"],
           ensures=[
               ("reaps_to_df", "call_arg('Crop.reap_runner', 'to_df') == True and call_arg('Crop.reap_runner', 'runner') == old(sampler.runner) "
-                              "and call_arg('Crop.reap_runner', 'clean_up') == clean_up and call_arg('Crop.reap_runner', 'wait') == wait "
+                              "and call_arg('Crop.reap_runner', 'wait') == wait "
                               "and call_arg('Crop.reap_runner', 'allow_incomplete') == allow_incomplete"),
+              deleted_iff, kept_unless,
               ("appends_like_sample", "implies(truthy(sync), called('Sampler.add_df') and call_arg('Sampler.add_df', 'new_df') == call_result('Crop.reap_runner') "
                                       "and call_arg('Sampler.add_df', 'sync') == sync and sampler._last_df == call_result('Crop.reap_runner'))"),
               ("returns_df", "result == call_result('Crop.reap_runner')"),
@@ -432,7 +461,8 @@ def install3(R):
     R.add(K + "Crop.reap", cls="Crop", result="V", props=["C12", "C06"],
           requires=[("sown", "fs_exists(InfoPath(self.location))"),
                     ("data_file_outside_crop", "implies(isinstance(self.farmer, Harvester), not under(self.location, HarvestPathV(self.farmer)))"),
-                    ("harvester_named", "implies(isinstance(self.farmer, Harvester), HarvesterNamedV(self.farmer))")],
+                    ("harvester_named", "implies(isinstance(self.farmer, Harvester), HarvesterNamedV(self.farmer))"),
+                    ("table_file_outside_crop", "implies(isinstance(self.farmer, Sampler), not under(self.location, TableOf(self.farmer)))")],
           modifies=["*"],
           ensures=[
               ("dispatch_runner", "implies(isinstance(old(self.farmer), Runner), called('Crop.reap_runner') and call_arg('Crop.reap_runner', 'runner') == old(self.farmer) "
@@ -472,4 +502,21 @@ def install3(R):
         finally:
             st.env = saved
     S["HarvesterNamedV"] = harvester_named_v
+    return R
+
+
+def install_cache_invariant(R):
+    """The placeholder cache Crop._all_nan_result is None or a placeholder, never the private sentinel NO_DEFAULT: it is written only by
+    Crop.__init__ (None) and Crop.all_nan_result (whose postcondition re-establishes this).  Stated as a precondition along the reap chain."""
+    inv_self = ("placeholder_cache_is_not_the_sentinel", "self._all_nan_result is not NO_DEFAULT")
+    tup = ("results_are_tuples", "forall(lambda b: implies(b >= 1 and fs_exists(ResultPath(self.location, b)), "
+                                 "fs_complete(ResultPath(self.location, b)) and is_seq(fs_content(ResultPath(self.location, b)))))")
+    for nm in ("Crop.reap_combos", "Crop.reap_combos_to_ds", "Crop.reap_runner", "Crop.reap_harvest", "Crop.reap_samples", "Crop.reap"):
+        c = R.get(K + nm)
+        c.requires += [inv_self, tup]
+    c = R.get(K + "calc_clean_up_default_res")
+    c.requires += [("placeholder_cache_is_not_the_sentinel", "crop._all_nan_result is not NO_DEFAULT"),
+                   ("results_are_tuples", tup[1].replace("self.", "crop."))]
+    a = R.get(K + "Crop.all_nan_result")
+    a.ensures.append(("cache_stays_a_placeholder", "self._all_nan_result is not NO_DEFAULT"))
     return R
